@@ -470,13 +470,25 @@ outer:
 				scs := make([]*prog.Scenario, group)
 				ids := make([]uint64, group)
 				xs := make([]*rt.Exec, group)
+				// es[gi]: the program execution gi runs. In every other simultaneous
+				// group a third of the executions run a *different* directive (another
+				// program of this runner), so that different directives overlap too.
+				es := make([]*rt.Entry, group)
 				for gi := 0; gi < group; gi++ {
+					es[gi] = e
+					if group > 1 && k%2 == 1 && gi%3 == 2 && len(nestable) > 0 {
+						es[gi] = nestable[int(prog.Mix(seed^hashStr(e.Name)^uint64(k*131+gi))%uint64(len(nestable)))]
+					}
 					r := prog.NewRand(seed, hashStr(e.Name), hashStr(tag), uint64(k), uint64(gi))
 					if group == 1 {
 						r = prog.NewRand(seed, hashStr(e.Name), hashStr(tag), uint64(k))
 					}
 					ids[gi] = rt.NextID()
-					scs[gi] = prog.GenScenario(e.Prog, r, ids[gi], scTag, k+gi)
+					t := scTag
+					if !applicable(es[gi].Prog, t) {
+						t = "ok"
+					}
+					scs[gi] = prog.GenScenario(es[gi].Prog, r, ids[gi], t, k+gi)
 				}
 				sc := scs[0]
 				// seeded choice of a perturbation profile for the scheduler's hook points
@@ -503,7 +515,7 @@ outer:
 							go func(gi int) {
 								defer wg.Done()
 								<-gate
-								xs[gi] = execute(e, scs[gi], ids[gi], quiet, false)
+								xs[gi] = execute(es[gi], scs[gi], ids[gi], quiet, false)
 							}(gi)
 						}
 						close(gate)
@@ -515,9 +527,9 @@ outer:
 						leak = append(leak, l...)
 						leakIncon = leakIncon || li
 						if !quiet {
-							for _, v := range Judge(e, scs[gi], xs[gi]) {
+							for _, v := range Judge(es[gi], scs[gi], xs[gi]) {
 								if group > 1 {
-									v.Why = fmt.Sprintf("[execution %d of %d simultaneous executions] %s", gi, group, v.Why)
+									v.Why = fmt.Sprintf("[execution %d (%s) of %d simultaneous executions] %s", gi, es[gi].Name, group, v.Why)
 								}
 								viols = append(viols, v)
 							}
@@ -600,7 +612,7 @@ outer:
 					}
 				}
 				for gi := 0; gi < group; gi++ {
-					account(b, distinct, e, scs[gi], xs[gi])
+					account(b, distinct, es[gi], scs[gi], xs[gi])
 					xs[gi].Close()
 				}
 			}
